@@ -55,6 +55,9 @@ Proof. exists w_leaffull. exact leaffull_refuted_l. Qed.
 Theorem separator_duplicate_refuted : exists ops, refutes F_SEPDUP ops.
 Proof. exists w_sepdup. exact sepdup_refuted_l. Qed.
 
+Theorem interior_split_overflow_refuted : exists ops, refutes F_INTFULL ops.
+Proof. exists w_intfull. exact intfull_refuted_l. Qed.
+
 (* non-vacuity: a history with leaf splits, a root split, deletes, updates of all three kinds, an append
    through the hint, and all three cursors stays outside every class and is accepted *)
 Definition nv_ops : list (op wval) :=
@@ -92,6 +95,7 @@ Check hint_fastpath_refuted : exists ops, refutes F_HINT ops.
 Check update_grow_refuted : exists ops, refutes F_UPD ops.
 Check split_leaf_overflow_refuted : exists ops, refutes F_LEAFFULL ops.
 Check separator_duplicate_refuted : exists ops, refutes F_SEPDUP ops.
+Check interior_split_overflow_refuted : exists ops, refutes F_INTFULL ops.
 
 Print Assumptions btree_refines_omap.
 Print Assumptions btree_state_after.
@@ -103,3 +107,4 @@ Print Assumptions hint_fastpath_refuted.
 Print Assumptions update_grow_refuted.
 Print Assumptions split_leaf_overflow_refuted.
 Print Assumptions separator_duplicate_refuted.
+Print Assumptions interior_split_overflow_refuted.
